@@ -32,6 +32,7 @@ def specs():
         ]
     out += [(f'{cls}.extend', cls, 'extend', ['streams']) for cls in ('Inlets', 'Outlets')]
     out += [(f'{cls}.__setitem__(slice)', cls, 'set_slice', ['slice', 'streams']) for cls in ('Inlets', 'Outlets')]
+    out += [(nm, 'Unit', mth, prm) for nm, (mth, prm) in UNIT_OPS.items()]
     out += [('Stream.disconnect_sink', 'StreamLike', 'disconnect_sink', []),
             ('Stream.disconnect_source', 'StreamLike', 'disconnect_source', []),
             ('Stream.disconnect', 'StreamLike', 'disconnect', [])]
@@ -44,6 +45,8 @@ def _verify(item):
         return _verify_extend(item)
     if meth == 'set_slice':
         return _verify_set_streams(item)
+    if cls == 'Unit':
+        return _verify_unit_op(item)
     import z3
     import thermosteam  # noqa
     nw = sys.modules['thermosteam.network']
@@ -468,6 +471,81 @@ def _verify_extend(item):
     return out
 
 
+# ----------------------------------------------------------------------------- the contract of  seq[a:b] = streams
+
+def slice_contract(cls, hA, hB, S, slc, n, arr, idx_new):
+    """Requires / ensures of a slice assignment to a port list, as formulas over the heap before (hA) and after (hB).
+    The SAME builder is used (a) by _verify_set_streams, which assumes `pre` and proves every `post` clause (and WF) from the
+    real source, and (b) at call sites inside unit-level operations (_verify_unit_op), where `pre` is an obligation and
+    `post` (and WF) is all that is known about the heap afterwards: callers are checked against the contract, not the body.
+    idx_new: ghost inverse of the duplicate-free sequence (position of a reference in `streams`)."""
+    import z3
+    from engine.vcg import heap as H
+    sel = z3.Select
+    m, m2, i_, x = z3.Ints('m m2 i x')
+    side = 'sink' if cls == 'Inlets' else 'source'
+    other_side = 'source' if cls == 'Inlets' else 'sink'
+    KIND = H.INLETS if cls == 'Inlets' else H.OUTLETS
+    OTHER_KIND = H.OUTLETS if cls == 'Inlets' else H.INLETS
+    owner = sel(getattr(hA, side), S)
+    L0 = sel(hA.llen, S)
+    lo0, hi0 = slc.bounds(L0)
+    a = lambda k_: sel(arr, k_)
+    kept = lambda k_: z3.Or(z3.And(k_ >= 0, k_ < lo0), z3.And(k_ >= hi0, k_ < L0))
+    isnew = lambda y: z3.And(idx_new(y) >= 0, idx_new(y) < n, a(idx_new(y)) == y)
+    shift = n - (hi0 - lo0)
+
+    def elem_ok(k_):
+        e = a(k_)
+        return z3.And(sel(hA.alloc, e), e != 0, z3.Or(sel(hA.kind, e) == H.STREAM, sel(hA.kind, e) == H.MISSING),
+                      z3.Implies(sel(hA.kind, e) == H.MISSING, sel(getattr(hA, other_side), e) == 0))
+    pre = [
+        ('the receiver is an allocated port list of this side', z3.And(sel(hA.alloc, S), S != 0, sel(hA.kind, S) == KIND)),
+        ('the sequence has a non-negative length and the slice non-negative bounds', z3.And(n >= 0, slc.a >= 0, slc.b >= 0)),
+        ('every element is an allocated stream or a placeholder of this side (no None element)', z3.ForAll([m], z3.Implies(z3.And(m >= 0, m < n), elem_ok(m)))),
+        ('no stream occurs twice in the sequence', z3.ForAll([m, m2], z3.Implies(z3.And(m >= 0, m < n, m2 >= 0, m2 < n, m != m2), a(m) != a(m2)))),
+        ('a stream assigned to a port is not already in the kept part of the same list', z3.ForAll([i_], z3.Implies(kept(i_), z3.Not(isnew(hA.el(S, i_)))))),
+        ('the slice does not supply more streams than a fixed-size list holds', z3.Implies(sel(hA.fixed, S), L0 - (hi0 - lo0) + n <= sel(hA.fsize, S))),
+    ]
+    ghost = z3.ForAll([m], z3.Implies(z3.And(m >= 0, m < n), idx_new(a(m)) == m))       # definable given "no stream occurs twice"
+    listed = z3.ForAll([m], z3.Implies(z3.And(m >= 0, m < n), z3.And(lo0 + m >= 0, lo0 + m < sel(hB.llen, S), hB.el(S, lo0 + m) == a(m))))
+    post = [
+        ('every stream of the sequence is listed in the port list afterwards', listed),
+        (f'every stream of the sequence has the owning unit as its {side}', z3.ForAll([m], z3.Implies(z3.And(m >= 0, m < n), sel(getattr(hB, side), a(m)) == owner))),
+        ('streams outside the slice keep their order around the new ones',
+         z3.ForAll([i_], z3.And(z3.Implies(z3.And(i_ >= 0, i_ < lo0), hB.el(S, i_) == hA.el(S, i_)),
+                                z3.Implies(z3.And(i_ >= hi0, i_ < L0), hB.el(S, i_ + shift) == hA.el(S, i_))))),
+        (f'a stream that left the list has no {side} afterwards',
+         z3.ForAll([i_], z3.Implies(z3.And(i_ >= lo0, i_ < hi0, z3.Not(isnew(hA.el(S, i_)))), sel(getattr(hB, side), hA.el(S, i_)) == 0))),
+        ('a list of fixed size has its size afterwards', z3.Implies(sel(hA.fixed, S), sel(hB.llen, S) == sel(hA.fsize, S))),
+        ('the list has the length of the kept part plus the sequence, or its fixed size', z3.Or(sel(hB.llen, S) == L0 + shift, z3.And(sel(hA.fixed, S), sel(hB.llen, S) == sel(hA.fsize, S)))),
+    ] + frame_clauses(cls, hA, hB)
+    return dict(pre=pre, ghost=ghost, post=post, listed=listed, owner=owner, lo=lo0, hi=hi0, L0=L0, shift=shift, isnew=isnew, a=a)
+
+
+def frame_clauses(cls, hA, hB):
+    """What a port-list operation of one side never touches (frame of the contract)."""
+    import z3
+    from engine.vcg import heap as H
+    sel = z3.Select
+    x = z3.Int('x')
+    other_side = 'source' if cls == 'Inlets' else 'sink'
+    OTHER_KIND = H.OUTLETS if cls == 'Inlets' else H.INLETS
+    islist = lambda h, y: z3.Or(sel(h.kind, y) == H.INLETS, sel(h.kind, y) == H.OUTLETS)
+    return [
+        ('frame: objects that existed before still exist, with their class',
+         z3.ForAll([x], z3.Implies(sel(hA.alloc, x), z3.And(sel(hB.alloc, x), sel(hB.kind, x) == sel(hA.kind, x))))),
+        ('frame: the port lists of every unit, their owners and size policies are unchanged',
+         z3.ForAll([x], z3.Implies(sel(hA.alloc, x), z3.And(sel(hB.ins, x) == sel(hA.ins, x), sel(hB.outs, x) == sel(hA.outs, x),
+                                                           sel(hB.fixed, x) == sel(hA.fixed, x), sel(hB.fsize, x) == sel(hA.fsize, x),
+                                                           z3.Implies(islist(hA, x), z3.And(sel(hB.sink, x) == sel(hA.sink, x), sel(hB.source, x) == sel(hA.source, x))))))),
+        (f'frame: the {other_side} of every existing object and the port lists of the other side are unchanged',
+         z3.ForAll([x], z3.Implies(sel(hA.alloc, x), z3.And(sel(getattr(hB, other_side), x) == sel(getattr(hA, other_side), x),
+                                                           z3.Implies(sel(hA.kind, x) == OTHER_KIND,
+                                                                      z3.And(sel(hB.llen, x) == sel(hA.llen, x), sel(hB.elem, x) == sel(hA.elem, x))))))),
+    ]
+
+
 # ----------------------------------------------------------------------------- slice assignment: seq[a:b] = streams
 
 def _verify_set_streams(item):
@@ -510,14 +588,10 @@ def _verify_set_streams(item):
             return z3.And(sel(h.alloc, e), e != 0, z3.Or(sel(h.kind, e) == H.STREAM, sel(h.kind, e) == H.MISSING),
                           z3.Implies(sel(h.kind, e) == H.MISSING, sel(getattr(h, other_side), e) == 0))
 
-        pre = [sel(h0.alloc, S), S != 0, sel(h0.kind, S) == KIND, n >= 0, sa >= 0, sb >= 0,
-               z3.ForAll([m], z3.Implies(z3.And(m >= 0, m < n), elem_ok(h0, m))),
-               z3.ForAll([m, m2], z3.Implies(z3.And(m >= 0, m < n, m2 >= 0, m2 < n, m != m2), a(m) != a(m2))),
-               # the quantifier of the property: a stream assigned to a port is not already in the (kept part of the) same list,
-               # a slice does not supply more streams than a fixed-size list holds
-               z3.ForAll([m], z3.Implies(z3.And(m >= 0, m < n), idx_new(a(m)) == m)),
-               z3.ForAll([i_], z3.Implies(kept(i_), z3.Not(isnew(h0.el(S, i_))))),
-               z3.Implies(sel(h0.fixed, S), L0 - (hi0 - lo0) + n <= sel(h0.fsize, S))]
+        # requires: exactly the `pre` of the shared contract builder (the same formulas are obligations at the call sites inside
+        # the unit-level operations); the ghost inverse is definable because the sequence has no repeated element
+        K0 = slice_contract(cls, h0, h0, S, slc, n, arr, idx_new)
+        pre = [c for _, c in K0['pre']] + [K0['ghost']]
         posIn = z3.Function('posIn', z3.IntSort(), z3.IntSort()); posOut = z3.Function('posOut', z3.IntSort(), z3.IntSort())
         hyps = [c for _, c in H.WF(h0, pos=(posIn, posOut))]
         shift = n - (hi0 - lo0)
@@ -549,7 +623,7 @@ def _verify_set_streams(item):
                     ('streams that left the list stay undocked',
                      z3.ForAll([i_], z3.Implies(z3.And(i_ >= lo0, i_ < hi0, z3.Not(isnew(h0.el(S, i_)))),
                                                 sel(getattr(h, side), h0.el(S, i_)) == 0))),
-                ]
+                ] + [(nm, c) for nm, c in frame_clauses(cls, h0, h)[1:]]
             @staticmethod
             def hyp(j, h):
                 k_ = next(H._cnt)
@@ -606,20 +680,13 @@ def _verify_set_streams(item):
             cands = ex.out_cands[n_out]
             for cname, c in H.WF(h1, cands=cands):
                 prove(f'path {n_out}: WF preserved: {cname}', pc, c)
-            own = owner
-            listed = z3.ForAll([m], z3.Implies(z3.And(m >= 0, m < n), z3.And(lo0 + m >= 0, lo0 + m < sel(h1.llen, S), h1.el(S, lo0 + m) == a(m))))
-            prove(f'path {n_out}: every stream of the sequence is listed in the port list afterwards', pc, listed)
-            # cut: the clause above (an obligation of its own) is used as a lemma, it names the positions the solver must look at
-            prove(f"path {n_out}: every stream of the sequence has the owning unit as its {side}", pc + [listed],
-                  z3.ForAll([m], z3.Implies(z3.And(m >= 0, m < n), sel(getattr(h1, side), a(m)) == own)))
-            prove(f'path {n_out}: streams outside the slice keep their order around the new ones', pc,
-                  z3.ForAll([i_], z3.And(z3.Implies(z3.And(i_ >= 0, i_ < lo0), h1.el(S, i_) == h0.el(S, i_)),
-                                         z3.Implies(z3.And(i_ >= hi0, i_ < L0), h1.el(S, i_ + shift) == h0.el(S, i_)))))
-            prove(f"path {n_out}: a stream that left the list has no {side} afterwards", pc,
-                  z3.ForAll([i_], z3.Implies(z3.And(i_ >= lo0, i_ < hi0, z3.Not(isnew(h0.el(S, i_)))),
-                                             sel(getattr(h1, side), h0.el(S, i_)) == 0)))
-            prove(f'path {n_out}: a list of fixed size has its size afterwards', pc,
-                  z3.Implies(sel(h0.fixed, S), sel(h1.llen, S) == sel(h0.fsize, S)))
+            K1 = slice_contract(cls, h0, h1, S, slc, n, arr, idx_new)
+            lemmas = []
+            for cname, c in K1['post']:
+                # cut: the first clause (an obligation of its own) is used as a lemma for the later ones, it names the positions
+                # the solver must look at
+                prove(f'path {n_out}: {cname}', pc + lemmas, c)
+                if not lemmas: lemmas = [c]
         for oname, pc, cond in ex.side_obligations:
             prove(f'loop: {oname}' if oname.startswith('loop invariant') else f'internal: {oname}', pc, cond)
         if n_ret == 0: out['obligations'].append(('vacuity: a normal return is reachable', 'sat'))
@@ -722,6 +789,141 @@ def _verify_set_streams(item):
         out['t_sample'] = round(time.time() - t_s, 1)
         if n_ret and not any('inputs' in c for c in out['cross_checks']) and not out.get('sample_timeouts'):
             out['obligations'].append(('vacuity: WF and the preconditions have a (finite) model', 'sat'))
+    except H.Unsupported as e:
+        out['unsupported'] = str(e)
+    except Exception as e:
+        out['error'] = f'{type(e).__name__}: {e}\n{traceback.format_exc()[-1200:]}'
+    out['wall_s'] = time.time() - t0
+    return out
+
+
+# ----------------------------------------------------------------------------- unit-level operations on the contract level
+
+UNIT_OPS = {
+    # name: (method, parameter kinds)
+    'Unit.take_place_of': ('take_place_of', ['unit']),
+    'Unit.replace_with(other)': ('replace_with', ['unit']),
+    'Unit.disconnect()': ('disconnect', []),
+}
+
+
+def _verify_unit_op(item):
+    """AbstractUnit.take_place_of / replace_with(other) / disconnect(): straight-line compositions of slice assignments to the
+    port lists.  They are verified MODULARLY: every `x[:] = y` is replaced by the contract proved in _verify_set_streams
+    (slice_contract): its requires are obligations at the call site, the heap afterwards is arbitrary up to its ensures + WF."""
+    name, cls, meth, params = item
+    import z3
+    import thermosteam  # noqa
+    nw = sys.modules['thermosteam.network']
+    from engine.vcg import heap as H
+    t0 = time.time()
+    out = {'name': name, 'obligations': [], 'paths': 0, 'unsupported': None, 'functions': [], 'solver_s': 0.0}
+    try:
+        classes = {'Inlets': nw.AbstractInlets, 'Outlets': nw.AbstractOutlets, 'StreamLike': nw.AbstractStream, 'Unit': nw.AbstractUnit}
+        sel = z3.Select
+        h0 = H.Heap('0')
+        U, V = z3.Ints('self other')
+        m = z3.Int('m')
+        isunit = lambda x: z3.And(sel(h0.alloc, x), x != 0, sel(h0.kind, x) == H.UNIT)
+        pre = [isunit(U)]
+        args = []
+        if params == ['unit']:
+            pre += [isunit(V), U != V]
+            args = [H.Ref(V, 'Unit')]
+            # receiver of the streams / giver of the streams
+            recv, giver = (U, V) if meth == 'take_place_of' else (V, U)
+            for fld in ('ins', 'outs'):
+                R, G = sel(getattr(h0, fld), recv), sel(getattr(h0, fld), giver)
+                # the quantifier of the property: a slice does not supply more streams than a fixed-size list holds
+                pre.append(z3.Implies(sel(h0.fixed, R), sel(h0.llen, G) <= sel(h0.fsize, R)))
+        posIn = z3.Function('posIn', z3.IntSort(), z3.IntSort()); posOut = z3.Function('posOut', z3.IntSort(), z3.IntSort())
+        hyps = [c for _, c in H.WF(h0, pos=(posIn, posOut))]
+
+        def mk_cands(pI, pO, h):
+            def cands(s_, inlet_side):
+                w_ = (pI if inlet_side else pO)(s_)
+                return [w_, w_ + 1, w_ - 1, z3.IntVal(0)]
+            return cands
+        calls = []
+
+        def apply_slice_contract(ex, o, k, v, heap, lineno):
+            S = o.t
+            if isinstance(v, H.ExtSeq): n_, arr_ = v.n, v.arr
+            elif isinstance(v, H.Ref) and v.cls in ('Inlets', 'Outlets'): n_, arr_ = sel(heap.llen, v.t), sel(heap.elem, v.t)
+            elif isinstance(v, H.ListV): n_, arr_ = sel(heap.llen, v.seq.t), sel(heap.elem, v.seq.t)
+            else: raise H.Unsupported('slice assignment of a value that is not a sequence of streams')
+            kk = next(H._cnt)
+            idx_new = z3.Function(f'idx_new!{kk}', z3.IntSort(), z3.IntSort())
+            hA = heap.copy(); hB = H.Heap(f'!c{kk}')
+            K = slice_contract(o.cls, hA, hB, S, k, n_, arr_, idx_new)
+            for nm, c in K['pre']:
+                ex.side_obligations.append((f'requires of the slice assignment #{len(calls) + 1}: {nm}', list(ex.pc), c))
+            pI = z3.Function(f'posIn!{kk}', z3.IntSort(), z3.IntSort()); pO = z3.Function(f'posOut!{kk}', z3.IntSort(), z3.IntSort())
+            ex.pc += [K['ghost']] + [c for _, c in H.WF(hB, pos=(pI, pO))] + [c for _, c in K['post']]
+            ex.cands_now = mk_cands(pI, pO, hB)
+            for f in H.FIELDS: setattr(heap, f, getattr(hB, f))
+            calls.append((o.cls, S, n_, arr_, hA, hB))
+
+        ex = H.Exec(classes, nw.__dict__)
+        ex.side_obligations = []
+        ex.contracts = {'slice_assign': apply_slice_contract}
+        ex.cands_now = mk_cands(posIn, posOut, h0)
+        outs = ex.run('Unit', meth, H.Ref(U, 'Unit'), args, h0, pre, hyps)
+        out['paths'] = len(outs)
+        out['functions'] = sorted(ex.functions_read)
+        out['contract_calls'] = len(calls)
+
+        def _prove(hyp, goal):
+            verdict = 'unknown'
+            for cfg in ('ematching', 'default'):
+                s_ = z3.Solver()
+                if cfg == 'ematching':
+                    s_.set('auto_config', False); s_.set('smt.mbqi', False); s_.set('timeout', max(5000, TIMEOUT_MS // 3))
+                else:
+                    s_.set('timeout', TIMEOUT_MS)
+                for x in hyp: s_.add(x)
+                s_.add(z3.Not(goal))
+                t1 = time.time(); r = s_.check(); out['solver_s'] += time.time() - t1
+                if r == z3.unsat: return 'unsat'
+                if r == z3.sat and cfg == 'default': verdict = 'sat'
+            return verdict
+
+        def prove(nm, pc, goal):
+            out['obligations'].append((nm, _prove(hyps + pc, goal)))
+
+        n_ret = 0
+        for n_out, (kind, pc, h1, v) in enumerate(outs):
+            if kind == 'abort':
+                prove(f'path {n_out}: cut path ({v}) is infeasible', pc, z3.BoolVal(False)); continue
+            if kind == 'raise':
+                prove(f'path {n_out}: {v} is never raised', pc, z3.BoolVal(False)); continue
+            n_ret += 1
+            for cname, c in H.WF(h1, cands=ex.out_cands[n_out]):
+                prove(f'path {n_out}: WF preserved: {cname}', pc, c)
+            if params == ['unit']:
+                for fld, side in (('ins', 'sink'), ('outs', 'source')):
+                    R, G = sel(getattr(h0, fld), recv), sel(getattr(h0, fld), giver)
+                    moved = z3.ForAll([m], z3.Implies(z3.And(m >= 0, m < sel(h0.llen, G)),
+                                                      z3.And(m < sel(h1.llen, R), h1.el(R, m) == h0.el(G, m), sel(getattr(h1, side), h0.el(G, m)) == recv)))
+                    prove(f'path {n_out}: every stream listed in the {fld} of the giving unit is listed, in order, in the {fld} of the receiving unit, which is its {side}', pc, moved)
+            else:
+                for fld, side in (('ins', 'sink'), ('outs', 'source')):
+                    R = sel(getattr(h0, fld), U)
+                    gone = z3.ForAll([m], z3.Implies(z3.And(m >= 0, m < sel(h0.llen, R), sel(h0.kind, h0.el(R, m)) == H.STREAM), sel(getattr(h1, side), h0.el(R, m)) == 0))
+                    prove(f'path {n_out}: every stream that was listed in the {fld} has no {side} afterwards', pc, gone)
+        for oname, pc, cond in ex.side_obligations:
+            prove(oname if oname.startswith('requires') else f'internal: {oname}', pc, cond)
+        if n_ret == 0: out['obligations'].append(('vacuity: a normal return is reachable', 'sat'))
+        if not calls: out['obligations'].append(('vacuity: the operation applies the slice-assignment contract', 'sat'))
+        # vacuity: the hypotheses after the contract applications are consistent
+        for n_out, (kind, pc, h1, v) in enumerate(outs):
+            if kind == 'return':
+                s_ = z3.Solver(); s_.set('auto_config', False); s_.set('smt.mbqi', False); s_.set('timeout', 5000)
+                for x in hyps + pc: s_.add(x)
+                if s_.check() == z3.unsat:
+                    out['obligations'].append((f'vacuity: the hypotheses of path {n_out} are consistent', 'sat'))
+        out['t_prove'] = round(out['solver_s'], 1)
+        out['cross_checks'] = []
     except H.Unsupported as e:
         out['unsupported'] = str(e)
     except Exception as e:
